@@ -499,6 +499,59 @@ func TestVerifC01Listeners(t *testing.T) {
 		}()
 	}
 	wg.Wait()
+	// DoQ: many undecodable frames on ONE connection (each on its own stream, abandoned without a reset by the client), more than
+	// the listener's stream limit (quic-go default 100): a valid query on the same connection is still answered afterwards
+	if a := addrs["quic"]; a != "" && alive() {
+		func() {
+			ctx, cancel := context.WithTimeout(context.Background(), 60*time.Second)
+			defer cancel()
+			conn, err := quic.DialAddr(ctx, a, &tls.Config{InsecureSkipVerify: true, NextProtos: []string{"doq"}}, &quic.Config{})
+			if err != nil {
+				rep.Note("quic same-connection phase skipped: " + err.Error())
+				return
+			}
+			defer conn.CloseWithError(0, "")
+			bad := c01Malformed()
+			desc := "quic: 130 undecodable frames on one connection, then a valid query on the same connection"
+			rep.Eval(desc)
+			for i := 0; i < 130; i++ {
+				octx, ocancel := context.WithTimeout(ctx, 10*time.Second)
+				st, err := conn.OpenStreamSync(octx)
+				ocancel()
+				if err != nil {
+					if !alive() {
+						died("quic", desc)
+						return
+					}
+					rep.Violate("C01:listener:quic:stopped-serving:same-connection", fmt.Sprintf("after %d undecodable frames on one connection no further stream can be opened (%v): the listener never retires the streams of rejected frames", i, err), nil)
+					return
+				}
+				st.Write(refdns.Frame(bad[i%len(bad)]))
+				st.Close()
+			}
+			octx, ocancel := context.WithTimeout(ctx, 10*time.Second)
+			st, err := conn.OpenStreamSync(octx)
+			ocancel()
+			ok := false
+			if err == nil {
+				q := valid(0)
+				st.SetDeadline(time.Now().Add(10 * time.Second))
+				st.Write(refdns.Frame(q))
+				st.Close()
+				b, _ := io.ReadAll(io.LimitReader(st, 70000))
+				if len(b) > 2 {
+					ok = okResp(b[2:], 0)
+				}
+			}
+			if !ok {
+				if !alive() {
+					died("quic", desc)
+					return
+				}
+				rep.Violate("C01:listener:quic:stopped-serving:same-connection", fmt.Sprintf("a valid query on a connection that carried 130 undecodable frames before is not answered (open stream error: %v)", err), nil)
+			}
+		}()
+	}
 	rep.Sample(map[string]any{"listener": "fasthttp", "input": "POST /dns-query without Content-Length", "expect": "HTTP error status, process alive, next valid query answered"})
 }
 
